@@ -48,7 +48,7 @@ func (c03Suite) Gen(rng *Rng, tier string, w *bufio.Writer, stats *Stats) {
 		name string
 		qs   []string
 	}{{"scope", focusedScopeShapes()}, {"with-rename", focusedWithShapes()}, {"suffix", focusedSuffixShapes()}, {"aggregate", focusedAggregateShapes()}, {"path-predicate", focusedPathPredicateShapes()},
-		{"order-alias", focusedOrderAliasShapes()}, {"path-membership", focusedPathMembershipShapes()}} {
+		{"order-alias", focusedOrderAliasShapes()}, {"path-membership", focusedPathMembershipShapes()}, {"exact-range", focusedExactRangeShapes()}} {
 		for _, q := range fam.qs {
 			emit("focused:"+fam.name, "q "+jsonQuote(q))
 			stats.Inc("focused." + fam.name)
